@@ -240,6 +240,7 @@ type EvPlan struct {
 	Own   bool   `json:"own"`   // from its own goroutine
 	Exact bool   `json:"exact,omitempty"` // (own) the scenario guarantees an order-independent outcome: the model applies it like a quiescent delivery
 	ThenAnswer bool `json:"thenAnswer,omitempty"` // (quiescent delivery) the next client action is an answer, issued at once
+	First bool   `json:"first,omitempty"` // (quiescent delivery) deliver before any pending request is answered
 	Last  bool   `json:"last,omitempty"` // (quiescent delivery) deliver only when no task request is pending
 	WhenListening int `json:"whenListening,omitempty"` // (own) wait until this many ActiveListeningTraces were observed
 	Prompt bool `json:"prompt,omitempty"` // (own) deliver the moment the After/WhenListening condition holds (signalled by the observer) instead of at the next quiescent moment: the event races with whatever the engine is doing right then
@@ -587,6 +588,9 @@ func (c *ProcCase) Main() {
 				opt := env.pick(len(pending) + 1)
 				if quiet[0].Last && len(pending) > 0 {
 					opt = 0 // answer first: this event is meant for the listeners the tokens end up at
+				}
+				if quiet[0].First {
+					opt = len(pending)
 				}
 				if len(pending) == 0 || opt == len(pending) {
 					ep := quiet[0]
